@@ -93,10 +93,13 @@ func (cp *CollectingProcess) startUDPServer() {
 			klog.Error(err)
 			return
 		}
+		// Register the socket loop with the wait group before the address is published: a
+		// caller that observes a non-nil GetAddress() may call Stop right away, and Stop
+		// must then wait for the socket loop (and for the socket to be closed).
+		cp.wg.Add(1)
 		cp.updateAddress(conn.LocalAddr())
 		klog.Infof("Start UDP collecting process on %s", cp.netAddress)
 		defer conn.Close()
-		cp.wg.Add(1)
 		go func() {
 			defer cp.wg.Done()
 			for {
